@@ -1728,6 +1728,19 @@ class PSBTOut:
                 raise ValueError(
                     "RedeemScript hash160 and ScriptPubKey hash160 do not match"
                 )
+            if self.redeem_script.is_p2wpkh():
+                # p2sh-p2wpkh: the RedeemScript holds the hash160 of the single key
+                if len(self.named_pubs) > 1:
+                    raise ValueError("too many pubkeys in p2sh-p2wpkh")
+                elif len(self.named_pubs) == 1:
+                    named_pub = list(self.named_pubs.values())[0]
+                    if self.redeem_script.commands[1] != named_pub.hash160():
+                        raise ValueError(
+                            "pubkey {} does not match the hash160".format(
+                                named_pub.sec().hex()
+                            )
+                        )
+                return
             for sec in self.named_pubs.keys():
                 try:
                     # this will raise a ValueError if it's not in there
